@@ -6,7 +6,8 @@
    `sane_b f` (decidable; evaluated on every observed workspace by the correspondence) says every
    file of f is reachable through directories — true of every real tree. *)
 From RipV Require Import Base.Prelude Base.Fs Model.Paths Model.Checkpoint Proofs.PathsProofs Proofs.CheckpointProofs
-  Proofs.AutoCoverProofs Proofs.CheckpointMultiProofs Proofs.AutoPatchProofs Gen.AutoCover.
+  Proofs.AutoCoverProofs Proofs.CheckpointMultiProofs Proofs.AutoPatchProofs Gen.AutoCover
+  Model.ToolDispatch Proofs.ToolDispatchProofs Gen.ToolNames.
 From RipV Require Model.Patch.
 Require Import Coq.Strings.String.
 
@@ -247,6 +248,74 @@ Example c14_ex_auto_write_undone :
   /\ exists f', write_tool expected_tool_steps x_ws6 x_report corr_ext 0 x_data = (f', None)
                 /\ file_at f' [x_report] = Some x_data /\ rewind f' x_ck6 = (x_ws6, None).
 Proof. exact ex_auto_write_undone. Qed.
+
+(* ---------- "before EVERY file-editing tool runs": the NAME of the invocation ----------
+   ToolRunner::run decides the automatic checkpoint from the invocation's name (files_for_invocation: a match on name
+   literals, every other name: no checkpoint) and finds the handler through ToolRegistry::get, which resolves aliases
+   (register_alias) - two tables.  `registry` (Model/ToolDispatch.v) holds both as data: registered name -> handler
+   kind (0 reads only, 2 spawns a process, 11 the write tool, 12 apply_patch), alias -> target, name literal -> arm kind;
+   `handler_of` = ToolRegistry::get (a registered name, else ONE level of alias), `arm_of` = the arm the name reaches,
+   `run_tool` = emit_checkpoint_events by name, then the handler (arguments of another tool's shape: `invalid args`).
+   `dispatch_wf` is decidable; this run's /repo passes it (tools/gen/toolnames.py reads register_builtin_tools, every
+   handler's module, ToolRegistry::get and the arms of files_for_invocation). *)
+
+(* under a well-formed registry every name - registered or alias - that reaches an editing handler reaches the
+   checkpoint arm of that very handler *)
+Theorem c14_editing_name_has_arm : forall (dfound : bool) (r : registry) (name : str) (k : N),
+  dispatch_wf dfound r = true -> handler_of r name = Some k ->
+  known_kind k = true /\ (edits k = true -> arm_of r name = Some k).
+Proof. exact editing_name_has_arm_d. Qed.
+Print Assumptions c14_editing_name_has_arm.
+
+(* EVERY invocation that edits - whatever name it came under, whatever argument (any write request in any mode, any
+   patch text) - is preceded by an automatic checkpoint, and rewinding to that checkpoint succeeds and gives back
+   EVERY file of the workspace: for every well-formed pair of tables and every extraction passing cover_wf.
+   `arg_ok`: the temporary name of an atomic write is not taken (Uuid::new_v4); no affected path of a patch lies
+   strictly below another one that is not a directory (without it: open finding S10j, c14_auto_patch_dir_refuted).
+   The shell is excluded (what a command does is not a function of the tool's arguments). *)
+Theorem c14_every_name_checkpointed :
+  forall (dfound : bool) (r : registry) (found : bool) (ts as_ : list N) (tk : N) (prog : list (N * N)),
+  dispatch_wf dfound r = true -> cover_wf found ts as_ tk prog = true ->
+  forall (f : fs) (root name : str) (a : targ) (ck : option (list entry)) (f' : fs),
+  is_absolute root = true -> tree_b f = true -> nonul_b f = true -> Patch.wf_fsb f = true ->
+  arg_ok ts f a -> handler_of r name <> Some K_PROCESS ->
+  run_tool r ts as_ f root name a = (ck, f') ->
+  forall q, file_at f' q <> file_at f q ->
+  exists c f2, ck = Some c /\ rewind f' c = (f2, None) /\ forall q', file_at f2 q' = file_at f q'.
+Proof. exact every_name_checkpointed_d. Qed.
+Print Assumptions c14_every_name_checkpointed.
+
+(* this run's /repo: the generated tables pass (Gen/ToolNames.v gen_registry_ok) *)
+Theorem c14_repo_registry_wf : dispatch_wf gen_dispatch_found gen_registry = true.
+Proof. exact gen_registry_ok. Qed.
+Print Assumptions c14_repo_registry_wf.
+
+(* aliases that reach the editing handlers while the match stays on the literal name (seeded change C14-9:
+   write_file -> write, patch -> apply_patch): the tables are not well formed, and `write_file a.txt` edits a.txt
+   with no checkpoint taken - nothing to rewind to *)
+Theorem c14_alias_unchecked_refuted :
+  exists name a,
+    handler_of aliased_registry name = Some K_WRITE /\ arm_of aliased_registry name = None
+    /\ tree_b d_ws = true /\ nonul_b d_ws = true /\ Patch.wf_fsb d_ws = true
+    /\ run_tool aliased_registry expected_tool_steps expected_auto_steps d_ws d_root name a = (None, d_after)
+    /\ file_at d_after [d_a] <> file_at d_ws [d_a].
+Proof. exact alias_unchecked_refuted. Qed.
+Print Assumptions c14_alias_unchecked_refuted.
+
+(* the hypotheses are satisfiable, and the two repairs (the arms list the aliases / the match is on the resolved
+   name) are well formed: the same call under the registered name and under the alias is checkpointed and undone *)
+Example c14_ex_named_write_undone :
+  run_tool small_registry expected_tool_steps expected_auto_steps d_ws d_root n_write (AWrite d_a corr_ext 0 d_data) = (Some d_ck, d_after)
+  /\ run_tool aliased_arms_registry expected_tool_steps expected_auto_steps d_ws d_root n_write_file (AWrite d_a corr_ext 0 d_data) = (Some d_ck, d_after)
+  /\ run_tool aliased_resolved_registry expected_tool_steps expected_auto_steps d_ws d_root n_write_file (AWrite d_a corr_ext 0 d_data) = (Some d_ck, d_after)
+  /\ rewind d_after d_ck = (d_ws, None)
+  /\ arg_ok expected_tool_steps d_ws (AWrite d_a corr_ext 0 d_data)
+  /\ handler_of small_registry n_write <> Some K_PROCESS.
+Proof. exact ex_named_write_undone. Qed.
+Example c14_ex_registries_wf :
+  registry_wf small_registry = true /\ registry_wf aliased_registry = false
+  /\ registry_wf aliased_arms_registry = true /\ registry_wf aliased_resolved_registry = true.
+Proof. exact ex_registries_wf. Qed.
 
 (* ---------- "all orders of multiple checkpoints and rewinds" ----------
    A session is any list of: take a checkpoint of some paths (HCreate; a refused request leaves none), rewind to
